@@ -199,10 +199,15 @@ fn send(
             problems.push("request without a required parameter / with an invalid one not refused with 4xx".into());
         } else {
             // framework error bodies validate against the documented error response
-            let er = resolve(doc, &responses["4XX"]);
+            // an operation with a free-form response documents a single `default` response that
+            // covers every status, errors included
+            let er = if responses["4XX"].is_null() { resolve(doc, &responses["default"]) } else { resolve(doc, &responses["4XX"]) };
             let schema = &er["content"]["application/json"]["schema"];
-            if schema.is_null() {
-                problems.push("no documented 4XX response schema".into());
+            if er.is_null() {
+                problems.push("no documented response covers a 4xx".into());
+            } else if schema.is_null() {
+                // `*/*` with an empty schema: anything is valid
+                cn.error_bodies_validated.fetch_add(1, Ordering::Relaxed);
             } else {
                 match resp.json() {
                     Some(b) if v.valid(&d, schema, &b) => {
@@ -359,9 +364,9 @@ fn main() {
                 cn.requests.fetch_add(1, Ordering::Relaxed);
                 if let ReadOutcome::Resp(resp) = ka.roundtrip(&req, false, T) {
                     let d = Doc { root: &doc, defs_pointer: "/components/schemas" };
-                    let er = resolve(&doc, &op["responses"]["4XX"]);
+                    let er = if op["responses"]["4XX"].is_null() { resolve(&doc, &op["responses"]["default"]) } else { resolve(&doc, &op["responses"]["4XX"]) };
                     let schema = &er["content"]["application/json"]["schema"];
-                    let ok = (400..500).contains(&resp.status) && resp.json().map(|b| Validator { depth_limit: 40 }.valid(&d, schema, &b)).unwrap_or(false);
+                    let ok = (400..500).contains(&resp.status) && !er.is_null() && (schema.is_null() || resp.json().map(|b| Validator { depth_limit: 40 }.valid(&d, schema, &b)).unwrap_or(false));
                     if ok {
                         cn.error_bodies_validated.fetch_add(1, Ordering::Relaxed);
                     } else {
